@@ -33,7 +33,9 @@ func bigCutsPer(tier string, f *vfile) int {
 	return 200
 }
 
-var blockSizes = []int{1024, 2048, 4096, 16384, 65536}
+// record-count block sizes a decoder may batch by, largest first (round 7, C14-L: a reader that streams
+// 32768-record chunks beyond the first one and takes a clean EOF at a chunk boundary for the end of data)
+var blockSizes = []int{65536, 32768, 16384, 8192, 4096, 2048, 1024}
 
 func blockOffsets(body, rec, count int) []int {
 	var out []int
@@ -93,13 +95,13 @@ func buildBigFile(seed uint64, bi int, tier string) *vfile {
 	case 5:
 		f = bigPLY(r, "ascii", 131073+extra%2000, true)
 	case 6:
-		f = bigSTL(r, 8192+extra%9000, stlHeaderKinds[(int(seed)+variant*3+2)%len(stlHeaderKinds)])
+		f = bigSTL(r, 65536+extra%9000, stlHeaderKinds[(int(seed)+variant*3+2)%len(stlHeaderKinds)])
 	case 7:
-		f = bigSPZ(r, seed, variant, 16384+extra%20000)
+		f = bigSPZ(r, seed, variant, 32768+extra%36000)
 	case 8:
-		f = bigSplat(r, 4096+extra%9000)
+		f = bigSplat(r, 65536+extra%9000)
 	default:
-		f = bigPTS(r, 10000+extra%9000)
+		f = bigPTS(r, 32768+extra%36000)
 	}
 	if f.Format != "spz" {
 		f.SPZDeg = -1
@@ -275,26 +277,41 @@ func (f *vfile) sampledCuts(r *rand.Rand, n int) (cuts []int, category map[int]s
 		return p
 	}
 	var cats [][]int
-	names := []string{"header", "last-64-bytes", "block-boundary", "64KiB-multiple", "random"}
+	names := []string{"header", "last-64-bytes", "block-boundary", "block-boundary", "64KiB-multiple", "random"}
 	hdr := []int{0, 1, f.BodyStart - 1, f.BodyStart, f.BodyStart + 1, f.BodyStart / 2}
 	var tail []int
 	for _, k := range r.Perm(64) {
 		tail = append(tail, L-1-k)
 	}
-	var blocks []int
+	// block boundaries twice: once with the largest block sizes first (each is a threshold only big files
+	// cross: every one of them must be cut exactly), once in random order
+	var blocksBig, blocks []int
+	seenB := map[int]bool{}
+	for _, b := range f.BlockOffsets { // built largest block size first
+		if !seenB[b] {
+			seenB[b] = true
+			blocksBig = append(blocksBig, b, b-1, b+1)
+		}
+	}
 	for _, k := range r.Perm(len(f.BlockOffsets)) {
 		b := f.BlockOffsets[k]
 		blocks = append(blocks, b, b-1, b+1)
 	}
 	var kib []int
-	for _, k := range r.Perm(L / 65536) {
-		kib = append(kib, (k+1)*65536, (k+1)*65536-1, (k+1)*65536+1)
+	for _, unit := range []int{1 << 20, 65536, 32768, 4096} {
+		m := L / unit
+		if m > 24 {
+			m = 24
+		}
+		for _, k := range r.Perm(L / unit)[:m] {
+			kib = append(kib, (k+1)*unit, (k+1)*unit-1, (k+1)*unit+1)
+		}
 	}
 	var rnd []int
 	for i := 0; i < n; i++ {
 		rnd = append(rnd, r.Intn(L))
 	}
-	cats = [][]int{hdr, tail, blocks, kib, rnd}
+	cats = [][]int{hdr, tail, blocksBig, blocks, kib, rnd}
 	category = map[int]string{}
 	for i := 0; len(category) < n; i++ {
 		progressed := false
